@@ -6,6 +6,8 @@ import (
 	"go/constant"
 	"go/token"
 	"go/types"
+	"math"
+	"strconv"
 	"strings"
 
 	"golang.org/x/tools/go/packages"
@@ -24,34 +26,44 @@ import (
 // `undecided` on b6 api.numericLexer#1.
 //
 // Printer side: the functions of package api reachable by static calls from UnparseExpression
-// (the entry C20 anchors). One instance per numeric argument that is turned into text there:
-// an argument of float or integer kind of fmt.Sprintf (paired with its verb through the constant
-// format), fmt.Sprint*, strconv.FormatFloat/FormatInt/FormatUint/Itoa.
+// (the entry C20 anchors). One instance per number that is turned into text there, in source
+// order within the function (key `Func#n`): an argument of float or integer kind of fmt.Sprintf /
+// Fprintf (paired with its verb through the constant format), fmt.Sprint*,
+// strconv.FormatFloat/FormatInt/FormatUint/Itoa, or of a *helper* — a function of the package
+// func(float) string, followed one level: the argument is formatted the way the helper formats
+// its parameter (today unparseFloat). The helper's own formatting call is an instance too.
 //
-// Obligation, float kind — the text always contains C:
-//   - Sprintf verb %f / %F with no precision (6 digits) or precision >= 1, or with the '#' flag;
+// Obligation `Func#n`, float kind — the text lexes back as one FLOAT token: it always contains C
+// and is not in exponent notation:
+//   - Sprintf verb %f / %F (6 digits, or precision >= 1, or the '#' flag);
 //   - strconv.FormatFloat(x, 'f', p, _) with constant p >= 1;
-//   - any other float format whose result is assigned to a local s, when the same function has
+//   - a format 'f' that can print a whole number without C (precision -1 or 0, %.0f) when its
+//     result is assigned to a local s and, before s is returned, the function tests
 //     `if !strings.Contains(s, K)` (or ContainsRune / IndexByte / IndexRune / Index `< 0`, `== -1`)
-//     whose body appends a constant string containing C to s (`s += ".0"`, `s = s + ".0"`).
-//     Violations: %.0f, %g %G %e %E %v %s, Sprint*, FormatFloat with 'e' 'E' 'g' 'G' 'b' 'x' or
-//     precision -1 / 0: all can print a whole number without C, which then lexes as an INT.
-//     Non-constant format, verb or precision: `undecided`.
+//     and appends a constant containing C in that branch (`s += ".0"`, `s = s + ".0"`);
+//   - violations: the same formats without that test (2.0 prints as 2 and lexes as an INT), and
+//     every format that can use exponent notation (%e %g %v, Sprint*, FormatFloat 'e' 'g'):
+//     1e-07 is not one numeric token. Non-constant format, verb, precision: `undecided`.
+//
+// Obligation `Func#precision<n>` (floats only) — the text is round-trip exact: strconv.FormatFloat
+// with precision -1 (and bit size 64 for a float64), fmt %v / %g without precision, Sprint*. A
+// fixed precision (%.Nf, %f = 6 decimals, %e, FormatFloat with precision >= 0) is a violation
+// that names a witness: values with more than N decimals print rounded (0.125 with %.2f).
 //
 // A value converted from a b6.FloatExpression / b6.IntExpression must be formatted as its own kind
 // (float64(l) of an IntExpression printed with %.1f is a violation), and C must be the '.' that Go's
 // formatting emits.
 //
 // Obligation, integer kind — the text never contains C: %d, %v, Itoa, FormatInt/FormatUint with
-// base 10, Sprint*; %c %q %U %x %X %o %b (not decimal digits) are `undecided`.
+// base 10, Sprint*; other verbs or bases are `undecided`.
 func init() {
 	register(&Rule{
 		Name:  "PRINT-LEX",
 		IR:    "ast",
 		Props: []string{"C20"},
-		Floor: 5, // numericLexer#1 + unparseLiteral: %d, %.2f, %f, %f
+		Floor: 10, // lexer #1; unparseLiteral #1 (int) #2 #3 #4 (floats, through unparseFloat) + #precision2..4; unparseFloat #1 + #precision1
 		Doc: "the numeric lexer decides FLOAT vs INT by the presence of one character (extracted from the lexer: '.'); every float the printing functions reachable from UnparseExpression " +
-			"turn into text is formatted so that the character is always present, and every integer so that it never is",
+			"turn into text is formatted so that the character is always present (and no exponent is used) and with the shortest round-trip-exact digits, and every integer so that the character never appears",
 		Run: runPrintLex,
 	})
 }
@@ -326,6 +338,7 @@ func jpPatched(info *types.Info, body ast.Node, call *ast.CallExpr, disc string)
 		return false
 	}
 	ok := false
+	var fixAt token.Pos
 	ast.Inspect(body, func(n ast.Node) bool {
 		ifs, isIf := n.(*ast.IfStmt)
 		if !isIf || ifs.Pos() < call.End() {
@@ -367,9 +380,32 @@ func jpPatched(info *types.Info, body ast.Node, call *ast.CallExpr, disc string)
 				ok = true
 			}
 		}
+		if ok && !fixAt.IsValid() {
+			fixAt = ifs.Pos()
+		}
 		return true
 	})
-	return ok
+	if !ok {
+		return false
+	}
+	// the result must not leave the function before the test
+	early := false
+	ast.Inspect(body, func(n ast.Node) bool {
+		r, isRet := n.(*ast.ReturnStmt)
+		if !isRet || r.Pos() < call.End() || r.Pos() > fixAt {
+			return true
+		}
+		for _, res := range r.Results {
+			ast.Inspect(res, func(m ast.Node) bool {
+				if id, isID := m.(*ast.Ident); isID && info.ObjectOf(id) == obj {
+					early = true
+				}
+				return true
+			})
+		}
+		return true
+	})
+	return !early
 }
 
 func runPrintLex(c *Ctx) []Obligation {
@@ -423,147 +459,249 @@ func runPrintLex(c *Ctx) []Obligation {
 		}
 		name := c.FuncName(p, fd)
 		ord := 0
-		emit := func(pos token.Pos, status, detail string) {
+		for _, st := range jpSites(c, p, fd, D, true) {
 			ord++
-			out = append(out, Obligation{Key: fmt.Sprintf("%s#%d", name, ord), Pos: c.Position(pos), Status: status, Detail: detail})
-		}
-		// kindOK: the argument is formatted as the kind of literal it comes from, and the character
-		// Go's formatting puts into a float is the lexer's discriminator
-		kindOK := func(arg ast.Expr, asFloat bool) bool {
-			if lit := jpLiteralOf(info, arg); lit != nil {
-				litFloat, _ := jpNumKind(lit)
-				if litFloat != asFloat {
+			key := fmt.Sprintf("%s#%d", name, ord)
+			pos := c.Position(st.arg.Pos())
+			arg := types.ExprString(st.arg)
+			// the argument must be formatted as the kind of literal it comes from, and the character
+			// Go's formatting puts into a float must be the lexer's discriminator
+			if lit := jpLiteralOf(info, st.arg); lit != nil {
+				if litFloat, _ := jpNumKind(lit); litFloat != st.float {
 					kinds := map[bool]string{true: "a float", false: "an integer"}
-					emit(arg.Pos(), Violation, fmt.Sprintf("%s is the value of %s literal (%s) but is printed as %s: the printed text lexes back as the other kind of number",
-						types.ExprString(arg), kinds[litFloat], jTypeString(lit), kinds[asFloat]))
-					return false
+					out = append(out, Obligation{Key: key, Pos: pos, Status: Violation, Detail: fmt.Sprintf("%s is the value of %s literal (%s) but is printed as %s (%s): the printed text lexes back as the other kind of number",
+						arg, kinds[litFloat], jTypeString(lit), kinds[st.float], st.how)})
+					continue
 				}
 			}
-			if asFloat && D != "." {
-				emit(arg.Pos(), Violation, fmt.Sprintf("float %s is printed with Go's decimal point '.', but the numeric lexer recognises a float by %q", types.ExprString(arg), D))
-				return false
+			if st.float && D != "." {
+				out = append(out, Obligation{Key: key, Pos: pos, Status: Violation, Detail: fmt.Sprintf("float %s is printed with Go's decimal point '.', but the numeric lexer recognises a float by %q", arg, D)})
+				continue
 			}
-			return true
+			kind := "integer"
+			if st.float {
+				kind = "float"
+			}
+			out = append(out, Obligation{Key: key, Pos: pos, Status: st.dot, Detail: fmt.Sprintf("%s %s is printed with %s: %s", kind, arg, st.how, st.dotWhy)})
+			if st.float {
+				out = append(out, Obligation{Key: fmt.Sprintf("%s#precision%d", name, ord), Pos: pos, Status: st.prec, Detail: fmt.Sprintf("float %s is printed with %s: %s", arg, st.how, st.precWhy)})
+			}
 		}
-		floatBad := func(call *ast.CallExpr, arg ast.Expr, how string) {
-			if jpPatched(info, fd.Body, call, D) {
-				emit(arg.Pos(), OK, fmt.Sprintf("float %s is printed with %s and the result gets %q appended when it lacks it", types.ExprString(arg), how, D))
-				return
-			}
-			emit(arg.Pos(), Violation, fmt.Sprintf("float %s is printed with %s, which prints a value without fractional part (2.0) with no %q: the text lexes as an INT and parses back as an IntExpression",
-				types.ExprString(arg), how, D))
-		}
-		ast.Inspect(fd.Body, func(n ast.Node) bool {
-			call, ok := n.(*ast.CallExpr)
-			if !ok {
-				return true
-			}
-			f := calleeFunc(info, call)
-			if f == nil || f.Pkg() == nil {
-				return true
-			}
-			full := f.Pkg().Path() + "." + f.Name()
-			switch {
-			case full == "fmt.Sprintf" || full == "fmt.Fprintf" || full == "fmt.Errorf":
-				fi := 0
-				if full == "fmt.Fprintf" {
-					fi = 1
-				}
-				if full == "fmt.Errorf" || len(call.Args) <= fi {
-					return true
-				}
-				args := call.Args[fi+1:]
-				anyNum := false
-				for _, a := range args {
-					if fl, in := jpNumKind(info.TypeOf(a)); fl || in {
-						anyNum = true
-					}
-				}
-				if !anyNum {
-					return true
-				}
-				format, isConst := jConstString(info, call.Args[fi])
-				verbs, parsed := jpVerbs(format)
-				if !isConst || !parsed || len(verbs) != len(args) {
-					for _, a := range args {
-						if fl, in := jpNumKind(info.TypeOf(a)); fl || in {
-							emit(a.Pos(), Undecided, fmt.Sprintf("number %s is formatted with a format the rule cannot pair with its arguments (%s)", types.ExprString(a), types.ExprString(call.Args[fi])))
-						}
-					}
-					return true
-				}
-				for i, a := range args {
-					fl, in := jpNumKind(info.TypeOf(a))
-					v := verbs[i]
-					if (fl || in) && !kindOK(a, fl) {
-						continue
-					}
-					switch {
-					case fl:
-						switch {
-						case v.precArg:
-							emit(a.Pos(), Undecided, fmt.Sprintf("float %s is printed with %s: precision is not constant", types.ExprString(a), v.text))
-						case (v.verb == 'f' || v.verb == 'F') && (v.prec == -1 || v.prec >= 1 || strings.Contains(v.flags, "#")):
-							emit(a.Pos(), OK, fmt.Sprintf("float %s is printed with %s: always contains %q", types.ExprString(a), v.text, D))
-						default:
-							floatBad(call, a, "the verb "+v.text)
-						}
-					case in:
-						switch v.verb {
-						case 'd', 'v':
-							emit(a.Pos(), OK, fmt.Sprintf("integer %s is printed with %s: never contains %q", types.ExprString(a), v.text, D))
-						default:
-							emit(a.Pos(), Undecided, fmt.Sprintf("integer %s is printed with %s, not as decimal digits", types.ExprString(a), v.text))
-						}
-					}
-				}
-			case full == "fmt.Sprint" || full == "fmt.Sprintln":
-				for _, a := range call.Args {
-					fl, in := jpNumKind(info.TypeOf(a))
-					if (fl || in) && !kindOK(a, fl) {
-						continue
-					}
-					if fl {
-						floatBad(call, a, f.Name()+" (%v)")
-					} else if in {
-						emit(a.Pos(), OK, fmt.Sprintf("integer %s is printed with %s: never contains %q", types.ExprString(a), f.Name(), D))
-					}
-				}
-			case full == "strconv.FormatFloat" && len(call.Args) == 4:
-				a := call.Args[0]
-				if !kindOK(a, true) {
-					return true
-				}
-				fk, pk := jConst(info, call.Args[1]), jConst(info, call.Args[2])
-				if fk == nil || pk == nil {
-					emit(a.Pos(), Undecided, fmt.Sprintf("float %s is printed with FormatFloat whose format or precision is not constant", types.ExprString(a)))
-					return true
-				}
-				fv, _ := constant.Int64Val(constant.ToInt(fk))
-				pv, _ := constant.Int64Val(constant.ToInt(pk))
-				if rune(fv) == 'f' && pv >= 1 {
-					emit(a.Pos(), OK, fmt.Sprintf("float %s is printed with FormatFloat('f', %d): always contains %q", types.ExprString(a), pv, D))
-				} else {
-					floatBad(call, a, fmt.Sprintf("strconv.FormatFloat(%q, %d)", rune(fv), pv))
-				}
-			case (full == "strconv.FormatInt" || full == "strconv.FormatUint") && len(call.Args) == 2:
-				a := call.Args[0]
-				if !kindOK(a, false) {
-					return true
-				}
-				if bk := jConst(info, call.Args[1]); bk != nil && constant.Compare(bk, token.EQL, constant.MakeInt64(10)) {
-					emit(a.Pos(), OK, fmt.Sprintf("integer %s is printed with %s base 10: never contains %q", types.ExprString(a), f.Name(), D))
-				} else {
-					emit(a.Pos(), Undecided, fmt.Sprintf("integer %s is printed with %s in a base that is not the constant 10", types.ExprString(a), f.Name()))
-				}
-			case full == "strconv.Itoa" && len(call.Args) == 1:
-				if !kindOK(call.Args[0], false) {
-					return true
-				}
-				emit(call.Args[0].Pos(), OK, fmt.Sprintf("integer %s is printed with Itoa: never contains %q", types.ExprString(call.Args[0]), D))
-			}
-			return true
-		})
 	}
+	return out
+}
+
+// jpSite is one number turned into text.
+type jpSite struct {
+	arg           ast.Expr
+	float         bool
+	how           string // the formatting, as written
+	dot, dotWhy   string // presence/absence of the lexer's float character
+	prec, precWhy string // floats: is the text round-trip exact
+}
+
+// jpFloatFormat classifies one float format. verb: f e g (lower-cased) or v; prec: digits after
+// the point / significant digits, -1 = shortest representation that parses back exactly;
+// alwaysDot: the '#' flag.
+func jpFloatFormat(verb rune, prec int, alwaysDot bool, patched bool, D string) (dot, dotWhy, precSt, precWhy string) {
+	switch {
+	case verb != 'f':
+		dot, dotWhy = Violation, "values of large or small magnitude print in exponent notation (1e+21, 1e-07), which the numeric lexer does not read as one number"
+	case prec >= 1 || alwaysDot:
+		dot, dotWhy = OK, fmt.Sprintf("the text always contains %q", D)
+	case patched:
+		dot, dotWhy = OK, fmt.Sprintf("a whole number prints without %q, but the result is tested for %q and gets it appended before it is returned", D, D)
+	default:
+		dot, dotWhy = Violation, fmt.Sprintf("a value without fractional part (2.0) prints with no %q: the text lexes as an INT and parses back as an IntExpression", D)
+	}
+	if prec < 0 {
+		precSt, precWhy = OK, "the shortest text that parses back to the same float64 (round-trip exact)"
+		return
+	}
+	precSt = Violation
+	if verb == 'f' {
+		w := strconv.FormatFloat(math.Pow(2, -float64(prec+1)), 'f', -1, 64)
+		precWhy = fmt.Sprintf("a fixed %d decimals: values with more than %d decimals print rounded (%s prints as %s) and parse back to a different value", prec, prec, w, strconv.FormatFloat(math.Pow(2, -float64(prec+1)), 'f', prec, 64))
+	} else {
+		precWhy = fmt.Sprintf("a fixed precision of %d digits: values that need more digits print rounded and parse back to a different value", prec)
+	}
+	return
+}
+
+// jpSites lists the numbers a function body turns into text, in source order. followHelpers: a
+// call g(x) of a module function func(float) string counts as formatting x the way g formats its
+// parameter (one level).
+func jpSites(c *Ctx, p *packages.Package, fd *ast.FuncDecl, D string, followHelpers bool) []jpSite {
+	info := p.TypesInfo
+	var out []jpSite
+	add := func(s jpSite) { out = append(out, s) }
+	intSite := func(a ast.Expr, how string, ok bool, why string) {
+		st := jpSite{arg: a, how: how, dot: OK, dotWhy: fmt.Sprintf("decimal digits, never contains %q", D)}
+		if !ok {
+			st.dot, st.dotWhy = Undecided, why
+		}
+		add(st)
+	}
+	floatSite := func(call *ast.CallExpr, a ast.Expr, how string, verb rune, prec int, sharp bool) {
+		st := jpSite{arg: a, float: true, how: how}
+		st.dot, st.dotWhy, st.prec, st.precWhy = jpFloatFormat(verb, prec, sharp, jpPatched(info, fd.Body, call, D), D)
+		add(st)
+	}
+	floatUnknown := func(a ast.Expr, how, why string) {
+		add(jpSite{arg: a, float: true, how: how, dot: Undecided, dotWhy: why, prec: Undecided, precWhy: why})
+	}
+	ast.Inspect(fd.Body, func(n ast.Node) bool {
+		call, ok := n.(*ast.CallExpr)
+		if !ok {
+			return true
+		}
+		f := calleeFunc(info, call)
+		if f == nil || f.Pkg() == nil {
+			return true
+		}
+		full := f.Pkg().Path() + "." + f.Name()
+		switch {
+		case full == "fmt.Sprintf" || full == "fmt.Fprintf":
+			fi := 0
+			if full == "fmt.Fprintf" {
+				fi = 1
+			}
+			if len(call.Args) <= fi {
+				return true
+			}
+			args := call.Args[fi+1:]
+			anyNum := false
+			for _, a := range args {
+				if fl, in := jpNumKind(info.TypeOf(a)); fl || in {
+					anyNum = true
+				}
+			}
+			if !anyNum {
+				return true
+			}
+			format, isConst := jConstString(info, call.Args[fi])
+			verbs, parsed := jpVerbs(format)
+			if !isConst || !parsed || len(verbs) != len(args) {
+				for _, a := range args {
+					why := "the format " + types.ExprString(call.Args[fi]) + " cannot be paired with its arguments"
+					if fl, in := jpNumKind(info.TypeOf(a)); fl {
+						floatUnknown(a, f.Name(), why)
+					} else if in {
+						intSite(a, f.Name(), false, why)
+					}
+				}
+				return true
+			}
+			for i, a := range args {
+				fl, in := jpNumKind(info.TypeOf(a))
+				v := verbs[i]
+				how := "the verb " + v.text
+				switch {
+				case fl && v.precArg:
+					floatUnknown(a, how, "the precision is not constant")
+				case fl:
+					lower := v.verb | 0x20
+					switch lower {
+					case 'f':
+						prec := v.prec
+						if prec < 0 {
+							prec = 6
+						}
+						floatSite(call, a, how, 'f', prec, strings.Contains(v.flags, "#"))
+					case 'e':
+						prec := v.prec
+						if prec < 0 {
+							prec = 6
+						}
+						floatSite(call, a, how, 'e', prec, false)
+					case 'g', 'v':
+						floatSite(call, a, how, 'g', v.prec, false) // no precision: shortest
+					default:
+						floatUnknown(a, how, "not a verb that prints a decimal number")
+					}
+				case in:
+					intSite(a, how, v.verb == 'd' || v.verb == 'v', "not printed as decimal digits")
+				}
+			}
+		case full == "fmt.Sprint" || full == "fmt.Sprintln":
+			for _, a := range call.Args {
+				if fl, in := jpNumKind(info.TypeOf(a)); fl {
+					floatSite(call, a, f.Name()+" (%v)", 'g', -1, false)
+				} else if in {
+					intSite(a, f.Name(), true, "")
+				}
+			}
+		case full == "strconv.FormatFloat" && len(call.Args) == 4:
+			a := call.Args[0]
+			fk, pk, bk := jConst(info, call.Args[1]), jConst(info, call.Args[2]), jConst(info, call.Args[3])
+			if fk == nil || pk == nil || bk == nil {
+				floatUnknown(a, "strconv.FormatFloat", "format, precision or bit size is not constant")
+				return true
+			}
+			fv, _ := constant.Int64Val(constant.ToInt(fk))
+			pv, _ := constant.Int64Val(constant.ToInt(pk))
+			bv, _ := constant.Int64Val(constant.ToInt(bk))
+			how := fmt.Sprintf("strconv.FormatFloat(%q, %d, %d)", rune(fv), pv, bv)
+			lower := rune(fv) | 0x20
+			if lower != 'f' && lower != 'e' && lower != 'g' {
+				floatUnknown(a, how, "not a decimal format")
+				return true
+			}
+			before := len(out)
+			floatSite(call, a, how, lower, int(pv), false)
+			if b, ok := info.TypeOf(a).Underlying().(*types.Basic); ok && b.Kind() == types.Float64 && bv != 64 && len(out) > before {
+				out[len(out)-1].prec = Violation
+				out[len(out)-1].precWhy = fmt.Sprintf("the float64 is rounded to %d bits before printing", bv)
+			}
+		case (full == "strconv.FormatInt" || full == "strconv.FormatUint") && len(call.Args) == 2:
+			bk := jConst(info, call.Args[1])
+			intSite(call.Args[0], f.Name()+" base "+types.ExprString(call.Args[1]), bk != nil && constant.Compare(bk, token.EQL, constant.MakeInt64(10)), "the base is not the constant 10")
+		case full == "strconv.Itoa" && len(call.Args) == 1:
+			intSite(call.Args[0], "strconv.Itoa", true, "")
+		case followHelpers && f.Pkg() == p.Types && len(call.Args) == 1:
+			// a helper func(float) string of the package
+			sig := f.Type().(*types.Signature)
+			if sig.Recv() != nil || sig.Params().Len() != 1 || sig.Results().Len() != 1 {
+				return true
+			}
+			if fl, _ := jpNumKind(sig.Params().At(0).Type()); !fl {
+				return true
+			}
+			if b, ok := sig.Results().At(0).Type().(*types.Basic); !ok || b.Kind() != types.String {
+				return true
+			}
+			gfd, gp := c.Decl(f)
+			if gfd == nil || gfd.Body == nil || gp != p || len(gfd.Type.Params.List) != 1 || len(gfd.Type.Params.List[0].Names) != 1 {
+				return true
+			}
+			param := info.Defs[gfd.Type.Params.List[0].Names[0]]
+			var hits []jpSite
+			for _, hs := range jpSites(c, p, gfd, D, false) {
+				inner := hs.arg
+				for {
+					inner = ast.Unparen(inner)
+					conv, ok := inner.(*ast.CallExpr)
+					if !ok || len(conv.Args) != 1 {
+						break
+					}
+					if tv, ok := info.Types[conv.Fun]; !ok || !tv.IsType() {
+						break
+					}
+					inner = conv.Args[0]
+				}
+				if id, ok := inner.(*ast.Ident); ok && info.ObjectOf(id) == param && hs.float {
+					hits = append(hits, hs)
+				}
+			}
+			how := "the helper " + f.Name()
+			if len(hits) != 1 {
+				floatUnknown(call.Args[0], how, fmt.Sprintf("%s formats its parameter %d times (need exactly one float format the rule can read)", f.Name(), len(hits)))
+				return true
+			}
+			h := hits[0]
+			add(jpSite{arg: call.Args[0], float: true, how: how + " (" + h.how + ")", dot: h.dot, dotWhy: h.dotWhy, prec: h.prec, precWhy: h.precWhy})
+		}
+		return true
+	})
 	return out
 }
